@@ -66,9 +66,19 @@ def extract_lc_comparator(src, tier):
         kind = "sort_by_key closure"
     else:
         raise Inconclusive("no sorted_lcs.sort_by(|a, b| {..}) / sort_by_key(|x| ..) in get_sorted_lifecycles_as_vec")
+    # the whole listing step: every statement between the `.collect();` that builds sorted_lcs and the returned `sorted_lcs`
+    mcol = re.search(r"let mut sorted_lcs[^=]*=\s*lcr\b.*?\.collect\(\);\n", body, re.S)
+    mret = re.search(r"\n\s*sorted_lcs\s*$", body)
+    if not mcol or not mret:
+        raise Inconclusive("get_sorted_lifecycles_as_vec: cannot locate 'let mut sorted_lcs = lcr...collect();' ... 'sorted_lcs'")
+    stmts = body[mcol.end():mret.start()]
+    fn += "\n// ---- generated: the statements of get_sorted_lifecycles_as_vec after the collect(), verbatim ----\n" \
+          "#[allow(clippy::all)]\nfn listing_sort<'a>(mut sorted_lcs: std::vec::Vec<&'a Lifecycle>) -> std::vec::Vec<&'a Lifecycle> {\n" \
+          + stmts + "\n    sorted_lcs\n}\n"
     dst = os.path.join(src, "src/lifecycle/verif_kani_lc.rs")
     open(dst, "a").write(fn)
-    return "source-extracted kernel: %s of lifecycle::get_sorted_lifecycles_as_vec pasted verbatim as fn extracted_cmp (its parameter, an evmap read guard, cannot be built under Kani)" % kind
+    return "source-extracted kernel: the statements of lifecycle::get_sorted_lifecycles_as_vec after collecting the evmap entries (%s and what " \
+           "follows) pasted verbatim as fn listing_sort / fn extracted_cmp (the function's parameter, an evmap read guard, cannot be built under Kani)" % kind
 
 
 def scale_cache_line(src, tier):
